@@ -211,6 +211,8 @@ class Runner:
             t = self.sends.get(ev[1])
             if t is not None:
                 t[0].cancel()
+        elif k == "uclose":
+            proto.close()
         elif k == "close":
             api.close()
         elif k == "lost":
